@@ -45,8 +45,11 @@ fn custom_auth_query_string_round_trips() {
     let users = ["", "u", "user name"];
     let mut cases = 0u64;
     for sig in raw_sigs.iter().filter(|s| !s.is_empty()) {
-        for pre_encoded in [false, true] {
-            let supplied = if pre_encoded { urlencoding::encode(sig).to_string() } else { sig.clone() };
+        // pre-encoded forms: upper-case hex escapes (what urlencoding emits) and lower-case ones (RFC 3986 2.1: equivalent)
+        for form in [0u8, 1, 2] {
+            let pre_encoded = form != 0;
+            let supplied = match form { 0 => sig.clone(), 1 => urlencoding::encode(sig).to_string(),
+                _ => urlencoding::encode(sig).to_string().replace("%2B", "%2b").replace("%2F", "%2f").replace("%3D", "%3d") };
             if pre_encoded && !supplied.contains('%') { continue; }     // indistinguishable from raw; covered by the raw case
             for name in names.iter().filter(|s| !s.is_empty()) { for key in keys.iter().filter(|s| !s.is_empty()) { for val in vals.iter().filter(|s| !s.is_empty()) { for user in users {
                 let mut b = AwsCustomAuthOptionsBuilder::new_signed(Some(name.as_str()), supplied.as_str(), key.as_str(), val.as_str());
@@ -76,5 +79,5 @@ fn custom_auth_query_string_round_trips() {
         cases += 1;
         assert!(u.is_empty() && params.len() == 1 && params[0].0 == "x-amz-customauthorizer-name" && pct_decode(&params[0].1) == *name);
     }
-    println!("BOUNDED custom_auth_query_string_round_trips cases={} bound=signatures<={} chars over {{A 9 + / =}} raw and pre-encoded x names<={} x token keys<={} x values<=2 x 3 usernames", cases, if thorough { 4 } else { 3 }, n2, n2);
+    println!("BOUNDED custom_auth_query_string_round_trips cases={} bound=signatures<={} chars over {{A 9 + / =}} raw, pre-encoded with upper-case and with lower-case hex escapes x names<={} x token keys<={} x values<=2 x 3 usernames", cases, if thorough { 4 } else { 3 }, n2, n2);
 }
